@@ -6,6 +6,7 @@ mod c12;
 mod c14;
 mod c18;
 mod c19;
+mod c20;
 mod cosm;
 mod gen;
 mod hist;
@@ -35,6 +36,22 @@ fn main() {
         if let (Ok(f), Some(q)) = (f, q) {
             let mut pr = net::PRule { line: args[2].clone(), f: Box::new(f), rm: Default::default() };
             println!("matches: {}", pr.matches(&q.req));
+        }
+        return;
+    }
+    if args.len() >= 3 && args[1] == "CBPROBE" {
+        // adbharness CBPROBE <rule>... : content-blocking conversion of a small rule set
+        let mut fs = adblock::lists::FilterSet::new(true);
+        for l in &args[2..] {
+            println!("add {:?}: {:?}", l, fs.add_filter(l, Default::default()).is_ok());
+        }
+        match std::panic::catch_unwind(move || fs.into_content_blocking()) {
+            Ok(Ok((rules, used))) => {
+                println!("used: {:?}", used);
+                println!("{}", serde_json::to_string_pretty(&rules).unwrap());
+            }
+            Ok(Err(())) => println!("Err(())"),
+            Err(_) => println!("PANIC"),
         }
         return;
     }
@@ -78,6 +95,7 @@ fn main() {
         "C07" => hist::run(seed, n, &mut out, true),
         "C18" => c18::run(seed, n, &mut out, args.get(5).map(|s| s.as_str()).unwrap_or("quick")),
         "C12" => c12::run(seed, n, &mut out),
+        "C20" => c20::run(seed, n, &mut out),
         "C19" => c19::run(seed, n, &mut out, args.get(5).map(|s| s.as_str()).unwrap_or("quick")),
         "PARSE" => c11::run_parse(seed, n, &mut out),
         "C11" => c11::run(seed, n, &mut out, args.get(5).map(|s| s.as_str()).unwrap_or("quick")),
